@@ -196,6 +196,25 @@ func xzCases(c *hx.Ctx, seed int64) []xzCase {
 		cases = append(cases, xzCase{G: XZCfg{LC: 3, LP: 0, PB: 2, DictCap: 1 << 16, BufSize: 4096, Check: 1, Matcher: 0},
 			Hist: []string{"W", "C"}, Fixed: [][]byte{data}, Tag: "rcvolume"})
 	}
+	// (4g) end-of-chunk margin (margin.go, construction A): default configuration, one Write (and
+	// 4096-byte Writes); the filler length moves a maximally expensive match across the end of a chunk
+	for f := 104842; f <= 104862; f += c.Pick(2, 1) {
+		data := marginBuildA(marginParamsA{seed: 1, n: 200, filler: f})
+		cs := xzCase{G: XZCfg{LC: 3, LP: 0, PB: 2, DictCap: 8 << 20, BufSize: 4096, Check: 4, Matcher: 0}, Hist: []string{"W", "C"}, Fixed: [][]byte{data}, Tag: "margin"}
+		if f%4 == 0 {
+			cs.Hist, cs.Fixed = nil, nil
+			for o := 0; o < len(data); o += 4096 {
+				e := o + 4096
+				if e > len(data) {
+					e = len(data)
+				}
+				cs.Hist = append(cs.Hist, "W")
+				cs.Fixed = append(cs.Fixed, data[o:e])
+			}
+			cs.Hist = append(cs.Hist, "C")
+		}
+		cases = append(cases, cs)
+	}
 	// (5) ring-wrap family: small dictionaries and look-ahead buffers, inputs several times
 	// longer than the encoder's ring (dictionary + look-ahead + 1) with matches at every
 	// distance around the wrap point; both match finders; written in odd-sized pieces
